@@ -257,6 +257,7 @@ func runSeparateInstances(c *Ctx, goroutines int, exprs []string, tpls []string)
 }
 
 func propC19(c *Ctx) {
+	propScaleFunctionTables(c)
 	g := newExGen(c)
 	g.funcs = []string{"Max", "Min", "Sum", "If", "Array", "Abs", "Choose", "Contains"}
 	n := 300
